@@ -75,6 +75,8 @@ class PathResult:
         self.nl = 0
         self.queries = 0
         self.t_solver = 0.0
+        self.max_q = 0.0  # slowest single obligation query (s)
+        self.retried = 0  # queries repeated with a longer timeout after an unknown
         self.failed = []  # (ob key, info, inputs)
         self.unknown = []  # ob keys
         self.sample = None
@@ -312,6 +314,7 @@ def discharge(c, w, timeout_ms, cc_every=0):
         t0 = time.time()
         r = c.solver.check()
         pr.t_solver += time.time() - t0
+        pr.max_q = max(pr.max_q, time.time() - t0)
         pr.queries += 1
         c.solver.pop()
         if r == z3.unsat:
@@ -348,7 +351,12 @@ def discharge(c, w, timeout_ms, cc_every=0):
                     s2.add(z3.Not(t))
                     t0 = time.time()
                     r2 = s2.check()
+                    if r2 == z3.unknown and pr.retried < 3:
+                        pr.retried += 1
+                        s2.set("timeout", 4 * timeout_ms)
+                        r2 = s2.check()
                     pr.t_solver += time.time() - t0
+                    pr.max_q = max(pr.max_q, time.time() - t0)
                     pr.queries += 1
                     if r2 == z3.unsat:
                         pr.by_solver += 1
@@ -393,7 +401,15 @@ def discharge(c, w, timeout_ms, cc_every=0):
             s.add(z3.Not(t))
             r = s.check()
             pr.queries += 1
+            if r == z3.unknown and pr.retried < 3:
+                # a machine under load: one more attempt with four times the budget before calling it inconclusive
+                pr.retried += 1
+                s = _fresh_solver(c, 4 * timeout_ms, lemmas if ob.chain else ())
+                s.add(z3.Not(t))
+                r = s.check()
+                pr.queries += 1
         pr.t_solver += time.time() - t0
+        pr.max_q = max(pr.max_q, time.time() - t0)
         if r == z3.unsat:
             pr.by_solver += 1
             cross_check(base, cc_every, pr)
@@ -453,7 +469,7 @@ def process_config(args):
     mod = importlib.import_module(modname)
     res = dict(
         key=cfg["key"], h=cfg["h"], paths=0, infeasible=0, forks=0, max_depth=0, obligations=0, trivial=0,
-        by_simplify=0, by_solver=0, nl=0, queries=0, t_solver=0.0, nontrivial_paths=0, solver_paths=0, structural=0, by_som=0, cc_agree=0, cc_unknown=0, cc_disagree=[], violations=[],
+        by_simplify=0, by_solver=0, nl=0, queries=0, t_solver=0.0, max_q=0.0, retried=0, nontrivial_paths=0, solver_paths=0, structural=0, by_som=0, cc_agree=0, cc_unknown=0, cc_disagree=[], violations=[],
         unknown=[], error=None, inconclusive=None, sample=None, funcs=[], stubs=[], shadow=None,
     )
     timeout_ms = opts.get("timeout_ms", 10000)
@@ -532,6 +548,8 @@ def process_config(args):
                     res["nl"] += pr.nl
                     res["queries"] += pr.queries + c.nq
                     res["t_solver"] += pr.t_solver + c.t_solver
+                    res["max_q"] = max(res["max_q"], pr.max_q)
+                    res["retried"] += pr.retried
                     res["cc_agree"] += pr.cc_agree
                     res["cc_unknown"] += pr.cc_unknown + pr.cc_unavailable
                     res["cc_disagree"].extend(pr.cc_disagree)
@@ -717,15 +735,16 @@ def main(argv=None):
             for r in pool.imap_unordered(process_config, work, chunksize=chunk):
                 results.append(r)
     wall = time.time() - t0
-    return report(mod, prop, tier, seed, results, wall, verbose)
+    return report(mod, prop, tier, seed, results, wall, verbose, opts)
 
 
-def report(mod, prop, tier, seed, results, wall, verbose=False):
+def report(mod, prop, tier, seed, results, wall, verbose=False, opts=None):
+    opts = opts or {}
     known = load_known()
     skipped = [r for r in results if r.get("skipped")]
     results = [r for r in results if not r.get("skipped")]
     agg = dict(configs=len(results), paths=0, infeasible=0, forks=0, max_depth=0, obligations=0, trivial=0, by_simplify=0,
-               by_solver=0, nl=0, queries=0, t_solver=0.0, nontrivial=0, structural=0, solver_paths=0, by_som=0, cc_agree=0, cc_unknown=0)
+               by_solver=0, nl=0, queries=0, t_solver=0.0, max_q=0.0, retried=0, nontrivial=0, structural=0, solver_paths=0, by_som=0, cc_agree=0, cc_unknown=0)
     funcs, stubs = set(), set()
     samples = []
     inconclusive, errors, unknowns = [], [], []
@@ -737,6 +756,8 @@ def report(mod, prop, tier, seed, results, wall, verbose=False):
         for k in ("paths", "infeasible", "forks", "obligations", "trivial", "by_simplify", "by_solver", "nl", "queries", "t_solver", "structural", "solver_paths", "by_som", "cc_agree", "cc_unknown"):
             agg[k] += r[k]
         agg["max_depth"] = max(agg["max_depth"], r["max_depth"])
+        agg["max_q"] = max(agg["max_q"], r.get("max_q", 0.0))
+        agg["retried"] += r.get("retried", 0)
         agg["nontrivial"] += r["nontrivial_paths"]
         ph = per_h.setdefault(r["h"], dict(configs=0, paths=0, obligations=0))
         ph["configs"] += 1
@@ -867,7 +888,9 @@ def report(mod, prop, tier, seed, results, wall, verbose=False):
             outside_claim=getattr(mod, "OUTSIDE", []),
             stubs=sorted(stubs),
             functions_executed=sorted(funcs),
-            solver=dict(name="z3", version=z3.get_version_string(), seconds_in_check=round(agg["t_solver"], 2), queries=agg["queries"]),
+            solver=dict(name="z3", version=z3.get_version_string(), seconds_in_check=round(agg["t_solver"], 2), queries=agg["queries"],
+                        per_query_timeout_s=opts.get("timeout_ms", 0) / 1000, slowest_obligation_query_s=round(agg["max_q"], 2),
+                        queries_repeated_with_4x_timeout=agg["retried"]),
             shadow_runs=shadow_runs, shadow_disagreements=shadow_bad, dtype_shadow_runs=dtype_shadow_runs,
             second_solver=dict(name="cvc5 (python wheel)", queries_rechecked=agg["cc_agree"] + agg["cc_unknown"], agree_unsat=agg["cc_agree"], cvc5_unknown_or_timeout=agg["cc_unknown"],
                                rule="every k-th query that z3 answered unsat is exported with Solver.to_smt2() and re-decided; a cvc5 'sat' is a harness error"),
@@ -892,7 +915,7 @@ def report(mod, prop, tier, seed, results, wall, verbose=False):
         print(f"  ({len(skipped)} configurations not explored: stopped early after {sum(len(r['violations']) for r in results)} violations)")
     print(f"{prop} {tier}: configs={agg['configs']} paths={agg['paths']} obligations={agg['obligations']} "
           f"solver-discharged={agg['by_solver']} simplifier={agg['by_simplify']} trivial={agg['trivial']} nl={agg['nl']} "
-          f"violations={len(new_violations)} known={sum(len(v) for v in known_hits.values())} wall={wall:.1f}s solver={agg['t_solver']:.1f}s exit={code}")
+          f"violations={len(new_violations)} known={sum(len(v) for v in known_hits.values())} wall={wall:.1f}s solver={agg['t_solver']:.1f}s maxq={agg['max_q']:.1f}s exit={code}")
     return code
 
 
